@@ -229,12 +229,19 @@ func c05Gen(t *rapid.T) c05Case {
 	c.Offset = rapid.SampledFrom([]uint64{0xffff800000000000, 0xffff800000000000, 0xffffc00000000000, 1 << 30, 0x200000}).Draw(t, "offset")
 	cursor := c.Offset + rapid.SampledFrom([]uint64{0, 0x100000, 0x100000, 0x7ff000}).Draw(t, "load")
 	n := rapid.IntRange(0, 10).Draw(t, "nsections")
+	many := rapid.IntRange(0, 24).Draw(t, "manysections") == 0
+	if many {
+		// "any count": an image with dozens of (small) sections
+		n = rapid.SampledFrom([]int{16, 31, 32, 33, 34, 48, 64, 65, 100, 129}).Draw(t, "nmany")
+	}
 	low := uint64(0)
 	for i := 0; i < n; i++ {
 		s := c05Section{Name: fmt.Sprintf(".s%d", i)}
 		s.Flags = uint32(rapid.IntRange(0, 7).Draw(t, "secflags"))
 		s.Size = uint64(rapid.IntRange(1, 4096*3).Draw(t, "size"))
-		if rapid.IntRange(0, 3).Draw(t, "big") == 0 {
+		if many {
+			s.Size = uint64(rapid.IntRange(1, 4096).Draw(t, "smallsize"))
+		} else if rapid.IntRange(0, 3).Draw(t, "big") == 0 {
 			s.Size = uint64(rapid.IntRange(1, 40).Draw(t, "pages"))*4096 - uint64(rapid.SampledFrom([]int{0, 0, 1, 100}).Draw(t, "short"))
 		}
 		if rapid.IntRange(0, 5).Draw(t, "below") == 0 {
